@@ -2,18 +2,18 @@ SPECIFICATION Spec
 CONSTANTS
   Seeds <- MCSeeds
   ScenariosOf <- MCScenariosOf
-  MaxRead = 2
+  MaxRead = 16
   KF_FastInvertSkipsStopLine = FALSE
   KF_ReaderByteCountIgnoresPartial = FALSE
-  MaxLines = 5
-  Bodies <- BodiesMX
-  CtxMax = 2
-  Terms = {"lf"}
+  MaxLines = 4
+  Bodies <- BodiesNul
+  CtxMax = 1
+  Terms = {"lf", "crlf"}
   Strats = {"reader", "slice"}
   Paths = {"slow", "fast"}
-  Caps = {2}
-  Flags = {"inv", "pass", "stopnm"}
-  Bins = {"none"}
-  PlanKinds = {}
+  Caps = {1, 3, 6}
+  Flags = {"inv", "pass"}
+  Bins = {"quit", "convert"}
+  PlanKinds = {"stop"}
 INVARIANTS BufInv ModelOK Emitted
 VIEW View
